@@ -264,7 +264,7 @@ theorem lnHalley_inl (nc : Ctx) (prec : Int) (maxIter : Nat) (z : Dec) :
         · exact ih _ _ _ _ _ _ _ h
 
 def LnP (c : Ctx) (d : Dec) (res : Cond) : Prop :=
-  res.inexact = true ∧ (c.WF → NoSys res → fits c d = true)
+  res.inexact = true ∧ res.rounded = true ∧ (c.WF → NoSys res → fits c d = true)
 
 theorem lnT_shape (c : Ctx) (x : Dec) (tp r : Tape) (o : Out) (h : lnT c x tp = some (o, r)) :
     logSpecials c x = some o ∨ (logSpecials c x = none ∧ (Failed o ∨ Computed c (LnP c) o)) := by
@@ -300,17 +300,18 @@ theorem lnT_shape (c : Ctx) (x : Dec) (tp r : Tape) (o : Out) (h : lnT c x tp = 
           fin_some h
           exact Or.inl (failed_of_ed _ hf)
         · fin_some h
-          refine Or.inr (computed_mk c (LnP c) _ _ ⟨?_, fun hc hn => ?_⟩)
+          refine Or.inr (computed_mk c (LnP c) _ _ ⟨?_, ?_, fun hc hn => ?_⟩)
           · simp [cInexact]
-          · rw [noSys_or_iff] at hn
-            exact fits_ctxRound c c hc rfl rfl rfl _ hn.1
+          · simp [cRounded]
+          · rw [noSys_or_iff, noSys_or_iff] at hn
+            exact fits_ctxRound c c hc rfl rfl rfl _ hn.1.1
 
 /-! ## Log10 -/
 
 def FitP (c : Ctx) (d : Dec) (res : Cond) : Prop := c.WF → NoSys res → fits c d = true
 
 theorem log10T_shape (c : Ctx) (x : Dec) (tp r : Tape) (o : Out) (h : log10T c x tp = some (o, r)) :
-    logSpecials c x = some o ∨ (logSpecials c x = none ∧ (Failed o ∨ Computed c (FitP c) o)) := by
+    logSpecials c x = some o ∨ (logSpecials c x = none ∧ (Failed o ∨ Computed c (LnP c) o)) := by
   unfold log10T at h
   split at h
   · rename_i o' hs
@@ -332,9 +333,11 @@ theorem log10T_shape (c : Ctx) (x : Dec) (tp r : Tape) (o : Out) (h : log10T c x
           fin_some h
           exact Or.inl (failed_of_bne _ hq)
         · fin_some h
-          refine Or.inr (computed_mk c (FitP c) _ _ (fun hc hn => ?_))
-          rw [noSys_or_iff] at hn
-          exact fits_ctxRound c c hc rfl rfl rfl _ hn.2
+          refine Or.inr (computed_mk c (LnP c) _ _ ⟨?_, ?_, fun hc hn => ?_⟩)
+          · simp [cInexact]
+          · simp [cRounded]
+          · rw [noSys_or_iff] at hn
+            exact fits_ctxRound c c hc rfl rfl rfl _ hn.2
 
 /-! ## Pow -/
 
@@ -398,8 +401,8 @@ theorem powT_shape (c : Ctx) (x y : Dec) (tp r : Tape) (o : Out) (h : powT c x y
               exact Or.inr (Or.inl (errOf_ne_of_failed _ hf))
             · fin_some h
               refine Or.inr (Or.inr (computed_mk c (FitP c) _ _ (fun hc hn => ?_)))
-              rw [noSys_or_iff, noSys_or_iff] at hn
-              have := fits_ctxRound c c hc rfl rfl rfl _ hn.1.2
+              rw [noSys_or_iff, noSys_or_iff, noSys_or_iff] at hn
+              have := fits_ctxRound c c hc rfl rfl rfl _ hn.1.1.2
               rw [← this]
               rfl
 
